@@ -87,6 +87,19 @@ func main() {
 			dumpDropped(p)
 			return
 		}
+		if *dump == "fns" {
+			// inventory: every source function of the module with its size (instructions)
+			for rel := range p.ByRel {
+				for _, f := range p.SrcFuncs(rel) {
+					n := 0
+					for _, b := range f.Blocks {
+						n += len(b.Instrs)
+					}
+					fmt.Printf("FN\t%s\t%d\n", fnName(f), n)
+				}
+			}
+			return
+		}
 		if strings.HasPrefix(*dump, "chanops:") {
 			dumpChanOps(p, strings.TrimPrefix(*dump, "chanops:"))
 			return
